@@ -170,6 +170,16 @@ var validated = make(map[*AttributeExpr]bool)
 // TaggedAttribute returns the name of the child attribute of a with the given
 // tag if a is an object.
 func TaggedAttribute(a *AttributeExpr, tag string) string {
+	return taggedAttribute(a, tag, make(map[*AttributeExpr]struct{}))
+}
+
+// taggedAttribute implements TaggedAttribute, seen guards against types that
+// extend each other.
+func taggedAttribute(a *AttributeExpr, tag string, seen map[*AttributeExpr]struct{}) string {
+	if _, ok := seen[a]; ok {
+		return ""
+	}
+	seen[a] = struct{}{}
 	obj := AsObject(a.Type)
 	if obj == nil {
 		return ""
@@ -184,7 +194,7 @@ func TaggedAttribute(a *AttributeExpr, tag string) string {
 		if ut, ok := b.(UserType); ok {
 			at = ut.Attribute()
 		}
-		if n := TaggedAttribute(at, tag); n != "" {
+		if n := taggedAttribute(at, tag, seen); n != "" {
 			return n
 		}
 	}
@@ -1004,9 +1014,19 @@ func (*AttributeExpr) IsSupportedValidationFormat(vf ValidationFormat) bool {
 // bases and references are only merged during Finalize. It is not a recursive
 // implementation.
 func walkAttribute(att *AttributeExpr, it func(name string, a *AttributeExpr) error) error {
+	return walkAttributeRec(att, it, make(map[*AttributeExpr]struct{}))
+}
+
+// walkAttributeRec implements walkAttribute, seen guards against types that extend
+// or reference each other.
+func walkAttributeRec(att *AttributeExpr, it func(name string, a *AttributeExpr) error, seen map[*AttributeExpr]struct{}) error {
+	if _, ok := seen[att]; ok {
+		return nil
+	}
+	seen[att] = struct{}{}
 	switch dt := att.Type.(type) {
 	case UserType:
-		if err := walkAttribute(dt.Attribute(), it); err != nil {
+		if err := walkAttributeRec(dt.Attribute(), it, seen); err != nil {
 			return err
 		}
 	case *Object:
@@ -1017,12 +1037,12 @@ func walkAttribute(att *AttributeExpr, it func(name string, a *AttributeExpr) er
 		}
 	}
 	for _, b := range att.Bases {
-		if err := walkAttribute(&AttributeExpr{Type: b}, it); err != nil {
+		if err := walkAttributeRec(&AttributeExpr{Type: b}, it, seen); err != nil {
 			return err
 		}
 	}
 	for _, r := range att.References {
-		if err := walkAttribute(&AttributeExpr{Type: r}, it); err != nil {
+		if err := walkAttributeRec(&AttributeExpr{Type: r}, it, seen); err != nil {
 			return err
 		}
 	}
